@@ -17,6 +17,10 @@ typedef struct {
 	uInt avail_out;
 	uLong total_out;
 	int toy_is_enc;
+	int toy_bad;	/* like inflate's BAD mode: once a call has failed, every further call fails without
+			   doing anything (until the stream is reset).  A conforming driver never makes such
+			   a call, so this is outside what the model observes; a driver that ignores an
+			   error code spins, as it does on the real library. */
 	toy_enc_t toy_enc;
 	toy_dec_t toy_dec;
 } z_stream;
@@ -85,10 +89,15 @@ static int deflate(z_stream *s, int flush)
 static int inflate(z_stream *s, int flush)
 {
 	size_t c, p;
-	int r = toy_dec_step(&s->toy_dec, s->next_in, s->avail_in, s->next_out, s->avail_out,
+	int r;
+	if (s->toy_bad)
+		return Z_DATA_ERROR;
+	r = toy_dec_step(&s->toy_dec, s->next_in, s->avail_in, s->next_out, s->avail_out,
 			     flush == Z_FINISH, &c, &p);
 	s->next_in += c; s->avail_in -= c; s->total_in += c;
 	s->next_out += p; s->avail_out -= p; s->total_out += p;
+	if (r == TOY_ERR)
+		s->toy_bad = 1;
 	return toy_z_map(r);
 }
 
@@ -102,6 +111,7 @@ static int deflateReset(z_stream *s)
 static int inflateReset(z_stream *s)
 {
 	toy_dec_reset(&s->toy_dec);
+	s->toy_bad = 0;
 	s->total_in = s->total_out = 0;
 	return Z_OK;
 }
